@@ -30,9 +30,10 @@ PROPS_MODULE = "BiotiteModel.Props.C20"
 DRIVER_MODULE = "BiotiteModel.Driver.C20"
 EXT_MODULES = []
 GEN_FILES = ["BiotiteModel/Gen/C20.lean"]
-RULE = ("histories (<= 6 calls quick, <= 8 thorough) of start/join/join(timeout)/cancel/get_app_state/setters/getters "
-        "+ the environment event `tick`, over 6 wrapper kinds (Application stub, LocalApp, ClustalO, MUSCLE3, MUSCLE5, "
-        "MAFFT) x 13 scripted behaviours of the external program (ok, reordered, 5 kinds of garbage, exit 3, killed by a "
+# (the web model lives in Model/C20Web.lean, Proofs/C20Web.lean; its theorems are in Props/C20.lean)
+RULE = ("histories (<= 6 calls quick, <= 8 thorough) of start/join/join(timeout incl. 0)/cancel/get_app_state/setters/getters "
+        "+ the environment event `tick`, over 7 wrapper kinds (Application stub, LocalApp, ClustalO, MUSCLE3, MUSCLE5, "
+        "MAFFT, tantan) x 13 scripted behaviours of the external program (ok, reordered, 5 kinds of garbage, exit 3, killed by a "
         "signal after writing valid output, hang, and three launch failures: missing binary, bin_path is a directory "
         "[PermissionError], NUL byte in the command [ValueError, not an OSError]) x protein/nucleotide/custom-alphabet inputs; half template-based (every way a run can end), "
         "half random; the bare Application stub additionally gets all histories up to length 3 (thorough: 4), MafftApp all "
@@ -46,17 +47,22 @@ ASSUMPTIONS = ["evaluate() never raises AppStateError (the wrappers' own `except
                "through the modelled environment)",
                "join(None) on a program that never exits diverges; such histories are not generated",
                "temp files are created in __init__, so a wrapper that is never started keeps them (no run, outside the property)"]
-LEVEL_TEXT = ("proof (partial): Lean 4 theorems over an executable state-machine model of Application/LocalApp/MSAApp and the "
-              "four MSA wrappers, for all histories and all scripted environments: allowed-call table (tied to the "
-              "@requires_state decorators by a regenerated table), refusal purity, results only after join, order "
-              "restoration, clean-up exactly once with no resources left at every terminal state; model tied to the code by "
-              "an op-by-op correspondence run with fake external programs. Partial: the OS side (process really dead, file "
-              "really gone) is observed, not proved; WebApp only as far as the Application state machine.")
+LEVEL_TEXT = ("proof (partial): Lean 4 theorems over executable state-machine models of (a) Application/LocalApp/MSAApp, the four MSA "
+              "wrappers and TantanApp and (b) WebApp/BlastWebApp (rule bookkeeping with a scripted clock and server on top of the "
+              "generic Application.join), for all histories and all scripted environments: allowed-call table (tied to every "
+              "@requires_state decorator, _state assignment and life-cycle call skeleton of all 18 Application subclasses in "
+              "biotite.application by regenerated tables), refusal purity, results only after join, order restoration, clean-up "
+              "exactly once with no resources left at every terminal state, unreachability of join's `except AppStateError` branch, "
+              "web rule: refused exactly when obey_rules and < 3 s / < 60 s since the last accepted contact / request, refusals "
+              "change nothing; models tied to the code by an op-by-op correspondence run with fake external programs / a fake "
+              "server. Partial: the OS side (process really dead, file really gone) and the network are observed or scripted, not "
+              "proved; DSSP, ViennaRNA, Vina, SRA are tied by the regenerated tables (SRA also by a regression case) but not driven; "
+              "result parsing of the non-MSA wrappers is out of scope.")
 LEVEL_NOTE = ("trusted: OS/subprocess/tempfile, fake tools, FASTA/Newick parsers as accept/reject; modelled-not-verified: "
               "timing (the `tick` gate makes the child's exit an explicit event)")
 TECHNIQUE = "Lean 4 proof (invariant over all histories of a state machine) + regenerated guard table + correspondence"
 
-WRAPPERS = ["base", "local", "clustalo", "muscle3", "muscle5", "mafft"]
+WRAPPERS = ["base", "local", "clustalo", "muscle3", "muscle5", "mafft", "tantan"]
 TOOLS = ["ok", "reorder", "garbage_empty", "garbage_ragged", "garbage_missing", "garbage_length", "garbage_tree", "exit3",
          "sigkill", "hang", "hang_ignore_term", "missing", "isdir", "nulbyte"]
 HANGS = ("hang", "hang_ignore_term")      # never exit on their own; the second one also ignores SIGTERM
@@ -67,7 +73,10 @@ SEQKINDS = ["prot", "nuc", "generic"]
 TIMEOUT = 0.05
 
 ANCHOR_FILES = ["application.py", "localapp.py", "msaapp.py", "webapp.py", "clustalo/app.py", "muscle/app3.py",
-                "muscle/app5.py", "mafft/app.py"]
+                "muscle/app5.py", "mafft/app.py",
+                # the other wrappers of biotite.application share the life cycle / clean-up contract: tied, not all driven
+                "autodock/app.py", "blast/webapp.py", "dssp/app.py", "sra/app.py", "tantan/app.py", "viennarna/rnafold.py",
+                "viennarna/rnaalifold.py", "viennarna/rnaplot.py"]
 STATES = ["CREATED", "RUNNING", "FINISHED", "JOINED", "CANCELLED"]
 
 # method resolution order of the wrapper kinds (class names as in the source)
@@ -78,6 +87,7 @@ MRO = {
     "muscle3": ["MuscleApp", "MSAApp", "LocalApp", "Application"],
     "muscle5": ["Muscle5App", "MSAApp", "LocalApp", "Application"],
     "mafft": ["MafftApp", "MSAApp", "LocalApp", "Application"],
+    "tantan": ["TantanApp", "LocalApp", "Application"],
 }
 
 # ---------------------------------------------------------------- the documented life cycle (oracle's own table)
@@ -95,9 +105,9 @@ DOC_ALLOWED = {
     "get_matrix_file_path": _ALL, "get_seqtype": _ALL,
     # wrappers
     "full_matrix_calculation": [_C], "set_distance_matrix": [_C], "set_guide_tree": [_C], "get_distance_matrix": [_J],
-    "get_guide_tree": [_J], "set_gap_penalty": [_C], "set_iterations": [_C], "set_thread_number": [_C], "use_super5": [_C],
+    "get_guide_tree": [_J], "get_mask": [_J], "set_gap_penalty": [_C], "set_iterations": [_C], "set_thread_number": [_C], "use_super5": [_C],
 }
-RESULT_GETTERS = ["get_alignment", "get_alignment_order", "get_guide_tree", "get_distance_matrix"]
+RESULT_GETTERS = ["get_alignment", "get_alignment_order", "get_guide_tree", "get_distance_matrix", "get_mask"]
 
 METHODS = {
     "base": [],
@@ -111,6 +121,7 @@ METHODS["clustalo"] = _MSA + ["full_matrix_calculation", "set_distance_matrix", 
 METHODS["muscle3"] = _MSA + ["set_gap_penalty", "get_guide_tree"]
 METHODS["muscle5"] = _MSA + ["set_iterations", "set_thread_number", "use_super5"]
 METHODS["mafft"] = _MSA + ["get_guide_tree"]
+METHODS["tantan"] = METHODS["local"] + ["get_mask"]
 
 
 def _bin_dir():
@@ -212,16 +223,37 @@ def _events(fn):
 def extract_tables(src_root):
     """{class: {"bases": [...], "methods": {name: guard-or-None}, "assigns": {name: [...]}, "skeleton": {name: [...]}}}"""
     classes = {}
+    # every class that (transitively) derives from Application, in any file of the package named above
+    nodes = []
     for rel in ANCHOR_FILES:
         path = os.path.join(src_root, "biotite", "application", rel)
         tree = ast.parse(open(path).read())
-        for node in tree.body:
-            if not isinstance(node, ast.ClassDef):
-                continue
+        nodes += [n for n in tree.body if isinstance(n, ast.ClassDef)]
+    family = {"Application"}
+    grew = True
+    while grew:
+        grew = False
+        for n in nodes:
+            if n.name not in family and any(isinstance(b, ast.Name) and b.id in family for b in n.bases):
+                family.add(n.name)
+                grew = True
+    # a file of the package that defines an Application subclass but is not listed would escape the tie: refuse
+    app_dir = os.path.join(src_root, "biotite", "application")
+    for root, _dirs, files in os.walk(app_dir):
+        for fn in files:
+            if fn.endswith(".py"):
+                rel = os.path.relpath(os.path.join(root, fn), app_dir)
+                if rel in ANCHOR_FILES:
+                    continue
+                for n in ast.parse(open(os.path.join(root, fn)).read()).body:
+                    if isinstance(n, ast.ClassDef) and any(isinstance(b, ast.Name) and b.id in family for b in n.bases):
+                        raise ValueError(f"Application subclass {n.name} in unlisted file {rel}")
+    if True:
+        for node in nodes:
             bases = [b.id for b in node.bases if isinstance(b, ast.Name)]
-            if node.name != "Application" and not any(b in ("Application", "LocalApp", "MSAApp", "WebApp") for b in bases):
+            if node.name not in family:
                 continue
-            info = {"bases": bases, "methods": {}, "assigns": {}, "skeleton": {}, "tempfiles": 0}
+            info = {"bases": bases, "methods": {}, "assigns": {}, "skeleton": {}, "tempfiles": 0, "calls": {}}
             for fn in node.body:
                 if not isinstance(fn, ast.FunctionDef):
                     continue
@@ -244,6 +276,13 @@ def extract_tables(src_root):
                     info["assigns"][fn.name] = asg
                 if fn.name in ("start", "join", "cancel", "get_app_state", "run", "clean_up", "evaluate", "is_finished"):
                     info["skeleton"][fn.name] = ev
+                if fn.name in ("run", "evaluate", "clean_up", "is_finished"):
+                    # public methods the wrapper calls on itself while the life cycle is in a known state
+                    called = sorted({n.func.attr for n in ast.walk(fn) if isinstance(n, ast.Call)
+                                     and isinstance(n.func, ast.Attribute) and isinstance(n.func.value, ast.Name)
+                                     and n.func.value.id == "self" and not n.func.attr.startswith("_")})
+                    if called:
+                        info["calls"][fn.name] = called
             classes[node.name] = info
     for need in ("Application", "LocalApp", "MSAApp", "ClustalOmegaApp", "MuscleApp", "Muscle5App", "MafftApp", "WebApp"):
         if need not in classes:
@@ -270,6 +309,52 @@ def extract_tables(src_root):
     return classes, polls
 
 
+def extract_web_rules(src_root):
+    """BlastWebApp rule layer: the two delays (class attributes) and, for `_contact` / `_request`, the comparison used
+    (`now - last < delay`) and that `violate_rule()` is called before the time stamp is overwritten."""
+    tree = ast.parse(open(os.path.join(src_root, "biotite", "application", "blast", "webapp.py")).read())
+    cls = next((n for n in tree.body if isinstance(n, ast.ClassDef) and n.name == "BlastWebApp"), None)
+    if cls is None:
+        raise ValueError("BlastWebApp not found")
+    consts = {}
+    for st in cls.body:
+        if isinstance(st, ast.Assign) and len(st.targets) == 1 and isinstance(st.targets[0], ast.Name) \
+                and isinstance(st.value, ast.Constant) and isinstance(st.value.value, int):
+            consts[st.targets[0].id] = st.value.value
+    for need in ("_contact_delay", "_request_delay", "_last_contact", "_last_request"):
+        if need not in consts:
+            raise ValueError(f"BlastWebApp.{need} not found as an integer class attribute")
+    rules = []
+    for fname, stamp, delay in (("_contact", "_last_contact", "_contact_delay"), ("_request", "_last_request", "_request_delay")):
+        fn = next((n for n in cls.body if isinstance(n, ast.FunctionDef) and n.name == fname), None)
+        if fn is None:
+            raise ValueError(f"BlastWebApp.{fname} not found")
+        ifs = [n for n in fn.body if isinstance(n, ast.If)]
+        if len(ifs) != 1 or not isinstance(ifs[0].test, ast.Compare) or len(ifs[0].test.ops) != 1:
+            raise ValueError(f"BlastWebApp.{fname}: expected exactly one `if <a> <op> <b>:`")
+        test = ifs[0].test
+        left, right = ast.unparse(test.left), ast.unparse(test.comparators[0])
+        if stamp not in left or "-" not in left or delay not in right:
+            raise ValueError(f"BlastWebApp.{fname}: test is not `now - {stamp} <op> {delay}`: {ast.unparse(test)}")
+        calls_violate = any(isinstance(n, ast.Call) and isinstance(n.func, ast.Attribute) and n.func.attr == "violate_rule"
+                            for n in ast.walk(ifs[0]))
+        idx_if = fn.body.index(ifs[0])
+        assigns_after = any(isinstance(n, ast.Assign) and stamp in ast.unparse(n.targets[0]) for n in fn.body[idx_if + 1:])
+        assigns_before = any(isinstance(n, ast.Assign) and stamp in ast.unparse(n.targets[0]) for n in fn.body[:idx_if])
+        rules.append((fname, type(test.ops[0]).__name__, calls_violate and assigns_after and not assigns_before))
+    wtree = ast.parse(open(os.path.join(src_root, "biotite", "application", "webapp.py")).read())
+    wcls = next((n for n in wtree.body if isinstance(n, ast.ClassDef) and n.name == "WebApp"), None)
+    vr = next((n for n in wcls.body if isinstance(n, ast.FunctionDef) and n.name == "violate_rule"), None) if wcls else None
+    if vr is None:
+        raise ValueError("WebApp.violate_rule not found")
+    top_if = [n for n in vr.body if isinstance(n, ast.If)]
+    guarded = len(top_if) == 1 and ast.unparse(top_if[0].test) == "self._obey_rules" and \
+        all(isinstance(n, ast.Raise) for b in (top_if[0].body, top_if[0].orelse) for n in ast.walk(ast.Module(body=b, type_ignores=[]))
+            if isinstance(n, ast.Raise)) and any(isinstance(n, ast.Raise) for n in ast.walk(top_if[0])) and \
+        not any(isinstance(n, ast.Raise) for st in vr.body if st is not top_if[0] for n in ast.walk(st))
+    return consts, rules, guarded
+
+
 def _lean_str(s):
     return '"' + s.replace("\\", "\\\\").replace('"', '\\"') + '"'
 
@@ -281,6 +366,7 @@ def _lean_list(xs):
 def gen_lean():
     from common import paths
     classes, polls = extract_tables(paths.SRC)
+    web_consts, web_rules, web_guarded = extract_web_rules(paths.SRC)
     L = ["/- REGENERATED on every run by harness/props/c20.py from src/biotite/application/*.py. Do not edit. -/",
          "namespace BiotiteModel.Gen.C20",
          "/-- (class, direct bases). -/",
@@ -298,9 +384,21 @@ def gen_lean():
          "def skeleton : List (String × String × List String) := " + _lean_list(
              f"({_lean_str(c)}, {_lean_str(m)}, {_lean_list(_lean_str(s) for s in ev)})"
              for c, i in sorted(classes.items()) for m, ev in sorted(i["skeleton"].items())),
+         "/-- Public methods a class calls on `self` inside run / evaluate / clean_up / is_finished: (class, context, callee). -/",
+         "def internalCalls : List (String × String × String) := " + _lean_list(
+             f"({_lean_str(c)}, {_lean_str(m)}, {_lean_str(x)})"
+             for c, i in sorted(classes.items()) for m, xs in sorted(i["calls"].items()) for x in xs),
          "/-- Number of `NamedTemporaryFile(...)` calls in `__init__`, per class. -/",
          "def tempFilesCreated : List (String × Nat) := " + _lean_list(
              f"({_lean_str(c)}, {i['tempfiles']})" for c, i in sorted(classes.items())),
+         "/-- BlastWebApp rule layer: delays (class attributes), per rule function (name, comparison operator of",
+         "`now - last <op> delay`, violate_rule() called before the stamp is overwritten), violate_rule raises iff _obey_rules. -/",
+         "def webContactDelay : Nat := " + str(web_consts["_contact_delay"]),
+         "def webRequestDelay : Nat := " + str(web_consts["_request_delay"]),
+         "def webInitialStamps : List Nat := " + _lean_list([str(web_consts["_last_contact"]), str(web_consts["_last_request"])]),
+         "def webRules : List (String × String × Bool) := " + _lean_list(
+             f"({_lean_str(a)}, {_lean_str(b)}, {'true' if c else 'false'})" for a, b, c in web_rules),
+         "def webViolateOnlyIfObey : Bool := " + ("true" if web_guarded else "false"),
          "/-- Does the refusal branch of `requires_state` call `get_app_state()` / `is_finished()` (a side effect)? -/",
          "def refusalPolls : Bool := " + ("true" if polls else "false"),
          "end BiotiteModel.Gen.C20", ""]
@@ -425,6 +523,10 @@ class _Session:
             self.app.set_arguments(["--plain"])
             return
         self.sequences = self._sequences()
+        if self.wrapper == "tantan":
+            from biotite.application.tantan import TantanApp
+            self.app = probe(TantanApp)(self.sequences, bin_path=bin_path)
+            return
         matrix = None
         if self.seqkind == "generic":
             import numpy as np
@@ -678,6 +780,264 @@ class _Session:
         shutil.rmtree(self.root, ignore_errors=True)
 
 
+# ---------------------------------------------------------------- WebApp / BlastWebApp with a scripted clock and server
+WEB_METHODS = ["set_entrez_query", "set_max_results", "set_max_expect_value", "set_gap_penalty", "set_word_size",
+               "set_match_reward", "set_mismatch_penalty", "set_substitution_matrix", "set_threshold", "get_xml_response",
+               "get_alignments"]
+WEB_ARGS = {"set_entrez_query": ("txid9606",), "set_max_results": (5,), "set_max_expect_value": (1.0,), "set_gap_penalty": (11, 1),
+            "set_word_size": (3,), "set_match_reward": (1,), "set_mismatch_penalty": (-2,), "set_substitution_matrix": ("blosum62",),
+            "set_threshold": (11,)}
+WEB_DOC_ALLOWED = dict({m: [_C] for m in WEB_METHODS if m.startswith("set_")}, get_xml_response=[_J], get_alignments=[_J],
+                       start=[_C], join=[_R, _F], cancel=[_R, _F], get_app_state=_ALL)
+WEB_CONTACT_DELAY, WEB_REQUEST_DELAY = 3, 60      # the documented NCBI rules (seconds between contacts / between searches)
+
+
+class _WebSession:
+    """The real BlastWebApp; `time` (in application.py and blast/webapp.py) and `requests` (in blast/webapp.py) are
+    replaced by a scripted clock / server for the duration of the case (module attributes, this process only)."""
+
+    def __init__(self, obey, k, toolarge):
+        import biotite.application.application as A
+        import biotite.application.blast.webapp as B
+        self.A, self.B = A, B
+        self.now, self.k, self.toolarge, self.sent = 1000, k, toolarge, 0
+        self.counter = {"n": 0}
+        sess = self
+
+        class FakeTime:
+            @staticmethod
+            def time():
+                return float(sess.now)
+
+            @staticmethod
+            def sleep(dt):
+                sess.now += dt
+
+        class Response:
+            def __init__(self, text):
+                self.text = text
+
+        class FakeRequests:
+            @staticmethod
+            def get(url, params=None):
+                return Response(sess.serve(params or {}))
+
+        self.saved = (A.time, B.time, B.requests, B.BlastWebApp._last_contact, B.BlastWebApp._last_request)
+        A.time, B.time, B.requests = FakeTime, FakeTime, FakeRequests
+        B.BlastWebApp._last_contact, B.BlastWebApp._last_request = 0, 0
+        counter = self.counter
+
+        class Probe(B.BlastWebApp):
+            def clean_up(self):
+                counter["n"] += 1
+                super().clean_up()
+
+        self.app = Probe("blastp", "MKTAYIAKQR", obey_rules=obey)
+
+    def serve(self, params):
+        self.sent += 1
+        cmd = params.get("CMD")
+        if cmd == "Put":
+            if self.toolarge:
+                return "<html>Submitted URI too large</html>"
+            return "<!--QBlastInfoBegin\n    RID = FAKE0001\n    RTOE = 1\nQBlastInfoEnd\n-->"
+        if cmd == "Get" and params.get("FORMAT_OBJECT") == "SearchInfo":
+            status = "READY" if self.k == 0 else "WAITING"
+            self.k = max(0, self.k - 1)
+            return f"<!--QBlastInfoBegin\n    Status={status}\nQBlastInfoEnd\n-->"
+        if cmd == "Get":
+            return ("<BlastOutput><BlastOutput_iterations><Iteration><Iteration_hits></Iteration_hits></Iteration>"
+                    "</BlastOutput_iterations></BlastOutput>")
+        return ""
+
+    def observe(self):
+        B = self.B.BlastWebApp
+        return {"st": self.app._state.name, "now": int(self.now), "lc": int(B._last_contact), "lr": int(B._last_request),
+                "k": self.k, "sent": self.sent, "cl": self.counter["n"]}
+
+    def op(self, line):
+        from biotite.application.application import AppStateError
+        w = line.split()
+        app = self.app
+        try:
+            if w[0] == "clock":
+                self.now += int(w[1])
+                return "ok"
+            if w[0] == "contact":
+                app._contact()
+                return "ok"
+            if w[0] == "request":
+                app._request()
+                return "ok"
+            if w[0] == "violate":
+                app.violate_rule()
+                return "ok"
+            if w[0] == "start":
+                app.start()
+                return "ok"
+            if w[0] == "state":
+                return "ok " + app.get_app_state().name
+            if w[0] == "cancel":
+                app.cancel()
+                return "ok"
+            if w[0] == "join":
+                box = {}
+
+                def target():
+                    try:
+                        app.join() if w[1] == "-" else app.join(timeout=int(w[1]))
+                        box["res"] = "ok"
+                    except BaseException as e:  # noqa: BLE001
+                        box["exc"] = e
+                th = threading.Thread(target=target, daemon=True)
+                th.start()
+                th.join(5.0)
+                if th.is_alive():
+                    self.k = 0                  # let the scripted server answer READY so that the thread ends
+                    th.join(5.0)
+                    return "hang-join"
+                if "exc" in box:
+                    raise box["exc"]
+                return "ok"
+            if w[0] == "call":
+                getattr(app, w[1])(*WEB_ARGS.get(w[1], ()))
+                return "ok"
+            return "bad-op"
+        except AppStateError:
+            return "ERR:AppStateError"
+        except Exception as e:  # noqa: BLE001
+            return "ERR:" + type(e).__name__
+
+    def close(self):
+        A, B = self.A, self.B
+        A.time, B.time, B.requests, B.BlastWebApp._last_contact, B.BlastWebApp._last_request = self.saved
+
+
+def _fmt_web(o):
+    return f"st={o['st']} now={o['now']} lc={o['lc']} lr={o['lr']} k={o['k']} sent={o['sent']} cl={o['cl']}"
+
+
+def execute_web(case):
+    ops = case["ops"]
+    w = ops[0].split()
+    sess = _WebSession(w[1] == "obey", int(w[2]), w[3] == "toolarge")
+    lines, trace = [], []
+    try:
+        after = sess.observe()
+        lines.append("ok | " + _fmt_web(after))
+        trace.append({"op": ops[0], "result": "ok", "before": None, "after": after})
+        for line in ops[1:]:
+            before = after
+            res = sess.op(line)
+            after = sess.observe()
+            lines.append(res + " | " + _fmt_web(after))
+            trace.append({"op": line, "result": res, "before": before, "after": after})
+    finally:
+        sess.close()
+    return lines, trace
+
+
+def _oracle_web(case, trace):
+    """Written from the documented rules: with obey_rules a server contact within 3 s of the last accepted contact, and a
+    search request within 60 s of the last accepted request, raise RuleViolationError and change nothing; otherwise they are
+    accepted and the time is recorded.  Life cycle / clean-up as for every Application."""
+    obey = case["ops"][0].split()[1] == "obey"
+    v = []
+    for t in trace[1:]:
+        op, res, b, a = t["op"], t["result"], t["before"], t["after"]
+        ww = op.split()
+        if res == "hang-join":
+            v.append(("C20/join/timeout-zero-does-not-time-out" if ww[1] == "0" else "C20/join/never-returns",
+                      f"`{op}` did not return ({case['ops']})"))
+            break
+        if ww[0] in ("contact", "request", "violate"):
+            if ww[0] == "violate":
+                should_refuse = obey
+            elif ww[0] == "contact":
+                should_refuse = obey and (b["now"] - b["lc"]) < WEB_CONTACT_DELAY
+            else:
+                should_refuse = obey and (b["now"] - b["lr"]) < WEB_REQUEST_DELAY
+            refused = res == "ERR:RuleViolationError"
+            if refused != should_refuse or (not refused and res != "ok"):
+                v.append((f"C20/web/rule/{ww[0]}/{'not-refused' if should_refuse else 'refused-wrongly'}",
+                          f"`{op}` at now={b['now']} lc={b['lc']} lr={b['lr']} obey={obey} -> {res} ({case['ops']})"))
+            if refused and a != b:
+                v.append((f"C20/web/rule/{ww[0]}/refusal-side-effect", f"refused `{op}` changed {b} -> {a}"))
+            if not refused and res == "ok":
+                exp = dict(b)
+                if ww[0] == "contact":
+                    exp["lc"] = b["now"]
+                if ww[0] == "request":
+                    exp["lr"] = b["now"]
+                if a != exp:
+                    v.append((f"C20/web/rule/{ww[0]}/accepted-wrong-bookkeeping", f"`{op}`: {b} -> {a}, expected {exp}"))
+        name = {"start": "start", "join": "join", "cancel": "cancel", "state": "get_app_state"}.get(ww[0])
+        if ww[0] == "call":
+            name = ww[1]
+        if name is not None:
+            allowed = b["st"] in WEB_DOC_ALLOWED[name]
+            refused = res == "ERR:AppStateError"
+            if allowed and refused:
+                v.append((f"C20/lifecycle/refused-but-allowed/{name}@{b['st']}", f"{op} in {b['st']} raised AppStateError ({case['ops']})"))
+            if not allowed and not refused:
+                v.append((f"C20/lifecycle/accepted-but-forbidden/{name}@{b['st']}", f"{op} in {b['st']} -> {res} ({case['ops']})"))
+            if refused and a != b:
+                v.append((f"C20/refusal-side-effect/web/{b['st']}", f"refused {op} changed {b} -> {a}"))
+            if name == "join" and not refused:
+                if res == "ok" and a["st"] != "JOINED":
+                    v.append(("C20/web/join-ok-not-joined", f"{op} -> ok but state {a['st']}"))
+                if res == "ERR:TimeoutError" and a["st"] != "CANCELLED":
+                    v.append(("C20/leak/timeout/web", f"{op} timed out but state {a['st']} ({case['ops']})"))
+            if name == "start" and not refused and res != "ok" and a["st"] != "CANCELLED":
+                v.append(("C20/leak/launch-failure/web", f"{op} -> {res} but state {a['st']} ({case['ops']})"))
+            if name == "cancel" and res == "ok" and a["st"] != "CANCELLED":
+                v.append(("C20/leak/cancel/web", f"{op} -> ok but state {a['st']}"))
+        terminal = a["st"] in ("JOINED", "CANCELLED")
+        if (terminal and a["cl"] != 1) or (not terminal and a["cl"] != 0):
+            v.append((f"C20/leak/cleanups/web/{a['st']}", f"after `{op}`: state {a['st']} with {a['cl']} clean-ups ({case['ops']})"))
+            break
+    seen, out = set(), []
+    for k, m in v:
+        if k not in seen:
+            seen.add(k)
+            out.append((k, m))
+    return out
+
+
+def _web_cases(rng, n, maxlen):
+    rule_ops = ["contact", "request", "violate", "clock 1", "clock 2", "clock 3", "clock 57", "clock 60", "clock 59"]
+    life_ops = ["start", "state", "join -", "join 0", "join 4", "join 7", "join 30", "cancel", "clock 3", "clock 1", "clock 60"]
+    out = []
+    for obey in ("obey", "free"):
+        # boundary walks of the two rules
+        out.append(["newweb %s 0 ok" % obey, "contact", "contact", "clock 2", "contact", "clock 1", "contact", "clock 3", "contact"])
+        out.append(["newweb %s 0 ok" % obey, "request", "request", "clock 59", "request", "clock 1", "request", "clock 60", "request"])
+        out.append(["newweb %s 0 ok" % obey, "violate", "contact", "violate"])
+        for k in (0, 1, 3):
+            out.append(["newweb %s %d ok" % (obey, k), "start", "join -", "call get_alignments", "cancel"])
+            out.append(["newweb %s %d ok" % (obey, k), "start", "clock 3", "state", "clock 3", "state", "join 30"])
+            out.append(["newweb %s %d ok" % (obey, k), "start", "join 0"])
+            out.append(["newweb %s %d ok" % (obey, k), "start", "state", "cancel"])
+        out.append(["newweb %s 9 ok" % obey, "start", "join 7", "state"])
+        out.append(["newweb %s 2 toolarge" % obey, "start", "start", "cancel"])
+        out.append(["newweb %s 1 ok" % obey, "contact", "start", "clock 3", "start"])
+        out.append(["newweb %s 1 ok" % obey, "request", "clock 3", "start", "cancel"])
+        out.append(["newweb %s 1 ok" % obey] + ["call " + m for m in WEB_METHODS] + ["start"] + ["call " + m for m in WEB_METHODS])
+    for _ in range(n):
+        head = "newweb %s %d %s" % (rng.choice(["obey", "obey", "free"]), rng.choice([0, 0, 1, 2, 4]), rng.choice(["ok"] * 6 + ["toolarge"]))
+        ops = []
+        for _ in range(rng.randint(1, maxlen)):
+            r = rng.random()
+            if r < 0.35:
+                ops.append(rng.choice(rule_ops))
+            elif r < 0.9:
+                ops.append(rng.choice(life_ops))
+            else:
+                ops.append("call " + rng.choice(WEB_METHODS))
+        out.append([head] + ops)
+    return [{"kind": "web", "ops": o} for o in out]
+
+
 def _fmt_obs(o):
     return f"st={o['st']} cwd={o['cwd']} files={o['files']} child={o['child']} cl={o['cl']}"
 
@@ -690,6 +1050,8 @@ def execute(case):
     import warnings
     ops = case["ops"]
     w = ops[0].split()
+    if w[0] == "newweb":
+        return execute_web(case)
     if w[0] != "new":
         return ["bad-op"] * len(ops), []
     sess = _Session(w[1], w[2], int(w[3]), w[4])
@@ -782,6 +1144,46 @@ def _oracle_cleanup_raises(case):
     return v
 
 
+def _oracle_sra_eval_failure(case):
+    """Oracle-only regression (no `ops`): the SRA apps have their own copy of LocalApp.join; a failing exit status of
+    `prefetch; fasterq-dump` must end CANCELLED *with* clean_up() run once (fixed in 99c5bd4c), a refused call after that."""
+    import subprocess
+    from biotite.application.application import AppStateError
+    from biotite.application.sra import FastqDumpApp
+    entered = []
+
+    class Probe(FastqDumpApp):
+        def clean_up(self):
+            entered.append(1)
+            super().clean_up()
+
+    old = {k: os.environ.get(k) for k in ("C20_GATE", "C20_LOG")}
+    os.environ.pop("C20_GATE", None)
+    os.environ.pop("C20_LOG", None)
+    v = []
+    try:
+        app = Probe("SRR000001", prefetch_path=os.path.join(_bin_dir(), "exit3"), fasterq_dump_path=os.path.join(_bin_dir(), "exit3"))
+        app.start()
+        try:
+            app.join(timeout=20)
+            v.append(("C20/result/failing-exit-accepted/sra", "join() succeeded although the shell command exited with 3"))
+        except subprocess.SubprocessError:
+            pass
+        if app._state.name != "CANCELLED" or len(entered) != 1 or app._process.poll() is None:
+            v.append(("C20/leak/exit-code/sra", f"after the failing exit: state={app._state.name}, clean_up entered {len(entered)}x, "
+                                                 f"child {'alive' if app._process.poll() is None else 'dead'}"))
+        try:
+            app.cancel()
+            v.append(("C20/lifecycle/accepted-but-forbidden/cancel@CANCELLED", "cancel() accepted after the failed join"))
+        except AppStateError:
+            pass
+    finally:
+        for k, val in old.items():
+            if val is not None:
+                os.environ[k] = val
+    return v
+
+
 def oracle(case):
     """Directly from the property statement, on the observed trace of the real code:
     (1) a call succeeds iff the documented life cycle allows it in the state the wrapper was in, otherwise AppStateError;
@@ -791,12 +1193,16 @@ def oracle(case):
         child, temp file or changed cwd is left; clean_up never runs twice."""
     if case.get("kind") == "cleanup-raises":
         return _oracle_cleanup_raises(case)
+    if case.get("kind") == "sra-eval-failure":
+        return _oracle_sra_eval_failure(case)
     key = json.dumps(case["ops"])
     trace = _TRACE_CACHE.pop(key, None)
     if trace is None:
         _, trace = execute(case)
     if not trace:
         return []
+    if case["ops"][0].startswith("newweb"):
+        return _oracle_web(case, trace)
     w = case["ops"][0].split()
     wrapper, tool = w[1], w[2]
     v = []
@@ -836,7 +1242,7 @@ def oracle(case):
                 exp = "ok " + ",".join(h for h, _ in rows)
                 if res != exp:
                     v.append(("C20/result/order-differs-from-tool-output", f"{res} expected {exp}"))
-            if (name == "join" and res == "ok" and wrapper not in ("base", "local")
+            if (name == "join" and res == "ok" and wrapper in ("clustalo", "muscle3", "muscle5", "mafft")
                     and tool in ("garbage_empty", "garbage_missing", "garbage_ragged", "garbage_length")):
                 v.append((f"C20/result/garbage-accepted/{tool}", f"join() succeeded although the program's output was {tool} ({case['ops']})"))
             if name == "join" and res == "ok" and tool in FAILING_EXIT:
@@ -873,7 +1279,7 @@ def oracle(case):
             if a["st"] not in ("JOINED", "CANCELLED"):
                 bad.append("state-" + a["st"])
             if bad:
-                v.append((f"C20/leak/{ended}/{'local' if wrapper not in ('base', 'mafft') else wrapper}",
+                v.append((f"C20/leak/{ended}/{'local' if wrapper not in ('base', 'mafft', 'tantan') else wrapper}",
                           f"run ended by {ended} but {'+'.join(bad)} after `{op}`: {a} ({case['ops']})"))
                 break
         elif a["cwd"] != "same":
@@ -895,7 +1301,7 @@ def _new_line(rng, wrapper=None, tool=None):
         # get_version() in __init__ already fails: still a valid (construction-only) case, keep a few
         pass
     seqkind = "prot"
-    if wrapper in ("clustalo", "muscle3", "muscle5", "mafft"):
+    if wrapper in ("clustalo", "muscle3", "muscle5", "mafft", "tantan"):
         seqkind = rng.choice(["prot", "prot", "nuc"])
         if wrapper in ("muscle3", "mafft") and rng.random() < 0.25:
             seqkind = "generic"
@@ -964,7 +1370,7 @@ def _exhaustive_wrapper(wrapper, maxlen):
 def cases(rng, tier):
     quick = tier == "quick"
     maxlen = 6 if quick else 8
-    n_tmpl, n_rand = (250, 250) if quick else (3000, 4000)
+    n_tmpl, n_rand = (200, 200) if quick else (3000, 4000)
     # every guarded method once in every reachable state (one wrapper per method owner)
     seen = set()
     out = []
@@ -993,22 +1399,25 @@ def cases(rng, tier):
     # programs that end with a failing exit status after (possibly) writing complete output
     for wrapper in WRAPPERS:
         for tool in FAILING_EXIT:
-            add(_mk(f"new {wrapper} {tool} 3 prot", ["start", "tick", "join -"] + (["call get_alignment"] if wrapper not in ("base", "local") else []), "failing-exit"))
+            add(_mk(f"new {wrapper} {tool} 3 prot", ["start", "tick", "join -"] + (["call get_alignment"] if wrapper in ("clustalo", "muscle3", "muscle5", "mafft") else []), "failing-exit"))
             add(_mk(f"new {wrapper} {tool} 3 prot", ["start", "join -"], "failing-exit"))
             if wrapper != "base":
                 add(_mk(f"new {wrapper} {tool} 3 prot", ["start", "tick", "state", "call get_exit_code", "join t", "call get_exit_code"], "failing-exit"))
     # programs that never exit (one of them ignores SIGTERM): cancel / timeout must leave no live child
     for wrapper in WRAPPERS:
         for tool in HANGS:
-            for ops in (["start", "cancel"], ["start", "join t"], ["start", "join 0"], ["start", "tick", "join 0.0", "state"],
-                        ["start", "state", "cancel", "cancel"]):
+            for ops in ((["start", "cancel"], ["start", "join t"], ["start", "tick", "join 0.0", "state"]) if quick else
+                        (["start", "cancel"], ["start", "join t"], ["start", "join 0"], ["start", "tick", "join 0.0", "state"],
+                         ["start", "state", "cancel", "cancel"])):
                 add(_mk(f"new {wrapper} {tool} 2 prot", ops, "hang"))
     # the boundary timeout 0 / 0.0 ("do not wait") in every state, finished and unfinished jobs
     for wrapper in WRAPPERS:
-        for tool in ("ok", "reorder", "exit3"):
+        for tool in (("ok", "exit3") if quick else ("ok", "reorder", "exit3")):
             for z in ("0", "0.0"):
-                for ops in ([f"join {z}"], ["start", f"join {z}", "state"], ["start", "state", f"join {z}", f"join {z}"],
-                            ["start", "tick", f"join {z}"], ["start", "tick", "state", f"join {z}"]):
+                for ops in ([["start", f"join {z}", "state"], ["start", "tick", f"join {z}"], ["start", "tick", "state", f"join {z}"]]
+                            if quick else
+                            [[f"join {z}"], ["start", f"join {z}", "state"], ["start", "state", f"join {z}", f"join {z}"],
+                             ["start", "tick", f"join {z}"], ["start", "tick", "state", f"join {z}"]]):
                     add(_mk(f"new {wrapper} {tool} 3 prot", ops, "join-zero"))
     for c in _exhaustive_base(3 if quick else 4):
         if not quick or len(c["ops"]) <= 3 or rng.random() < 0.12:
@@ -1033,6 +1442,8 @@ def cases(rng, tier):
     for _ in range(n_rand):
         wrapper = rng.choice(WRAPPERS)
         add(_mk(_new_line(rng, wrapper), _random_history(rng, wrapper, maxlen), "random"))
+    for c in _web_cases(rng, 150 if quick else 2500, maxlen):
+        add(c)
     return out
 
 
@@ -1052,6 +1463,8 @@ def corpus():
         {"kind": "regression", "ops": ["new muscle5 sigkill 3 prot", "start", "tick", "join -", "call get_alignment"]},
         # ... and a subclass clean_up() that raises after the failed launch must not mask the launch error (oracle-only)
         {"kind": "cleanup-raises"},
+        # the SRA apps' own join(): failing exit status must clean up too (oracle-only)
+        {"kind": "sra-eval-failure"},
         # MAFFT clean_up
         {"kind": "regression", "ops": ["new mafft ok 3 prot", "start", "tick", "join -", "call get_alignment"]},
         {"kind": "regression", "ops": ["new mafft ok 3 prot", "start", "cancel"]},
@@ -1086,6 +1499,8 @@ def distribution(cases, impl_outs):
         if not c.get("ops"):
             continue
         w = c["ops"][0].split()
+        if w[0] == "newweb":
+            w = ["new", "blastweb", w[1] + "/" + w[3]]
         wr[w[1]] = wr.get(w[1], 0) + 1
         tools[w[2]] = tools.get(w[2], 0) + 1
         for line in o or []:
